@@ -31,6 +31,20 @@ Theorem C15_unique_stationary_point :
 Proof. move=> F m n A Cx Ce x0 b Ux Ue Us; split; [exact: map_stationary | move=> x; exact: stationary_unique]. Qed.
 Print Assumptions C15_unique_stationary_point.
 
+(* optimiser route, PARTIAL: on a linear-Gaussian (quadratic) posterior any point x differs from the maximiser by
+   H^-1 applied to the posterior gradient at x -- so a point where the optimiser's stopping test |grad| <= tol fires is
+   within |H^-1| tol of the MAP and a zero gradient gives the MAP itself.
+   Full statement NOT proved: "whenever scipy reports success the returned point is a maximiser" for every unimodal
+   posterior -- convergence of BFGS / L-BFGS-B and the accuracy of finite-difference gradients are outside the model;
+   for non-Gaussian posteriors maximality is checked by the harness oracle on every run, not proved (and is refuted
+   for non-smooth priors: finding ..|nonsmooth-prior:bfgs-finite-differences). *)
+Theorem C15_optimiser_partial :
+  forall (F : fieldType) (m n : nat) (A : 'M[F]_(m, n)) (Cx : 'M[F]_n) (Ce : 'M[F]_m) (x0 : 'cV[F]_n) (b : 'cV[F]_m) (x : 'cV[F]_n),
+  Cx \in unitmx -> Ce \in unitmx -> sysm A Cx Ce \in unitmx ->
+  x = map_closed A Cx Ce x0 b - invmx (hess A Cx Ce) *m post_grad A Cx Ce x0 b x.
+Proof. move=> F m n A Cx Ce x0 b x Ux Ue Us; exact: stationary_error. Qed.
+Print Assumptions C15_optimiser_partial.
+
 (* _sampleMapCholesky: x = x_MAP + L z with L L^T = hess^-1: offset = posterior mean, differences of draws = L applied
    to differences of the normals, covariance L L^T is the inverse of the posterior precision = Woodbury form *)
 Theorem C15_cholesky_draw_moments :
